@@ -930,6 +930,15 @@ pub fn run_halves(args: &Args) -> (u64, u64) {
         let Some((mut a, _)) = pair(&mut c, "vanilla", "UNSPLIT", key, None, 1) else { continue };
         let mut k2 = key;
         k2[i] ^= if i % 2 == 0 { 0x01 } else { 0xFF };
+        match i % 5 {
+            // differences that cancel under a folded comparison: the same mask in two bytes, two bytes swapped,
+            // the same mask in four bytes
+            2 => k2[(i * 7 + 3) % 40] ^= if i % 2 == 0 { 0x01 } else { 0xFF },
+            3 => { k2 = key; k2.swap(i, (i + 11) % 40); if k2 == key { k2[i] ^= 0x80; } }
+            4 => { for j in 1..4 { k2[(i + 9 * j) % 40] ^= if i % 2 == 0 { 0x01 } else { 0xFF }; } }
+            _ => {}
+        }
+        if k2 == key { k2[0] ^= 1; }
         let Some((mut b2, _)) = pair(&mut c, "vanilla", "UNSPLIT", k2, None, 1) else { continue };
         let mut w = vec![0u8; i + 1];
         rng.fill_bytes(&mut w);
